@@ -48,7 +48,7 @@ REAL = ['asyncssh forward.py, listener.py, socks.py, connection/channel '
         'forwarding paths of both endpoints']
 STUB = ['event loop + clock', 'TCP/UNIX sockets and listeners', 'DNS',
         'executor', 'origin and destination applications']
-PROBES = ['destination_resolver_rejects', 'duplicate_listen_while_relaying', 'socks_request_never_completed', 'connected_behind_the_grant', 'listener_closed_twice', 'duplicate_listen_request', 'dynamic_listen_ports', 'mode_remote_unix', 'mode_local', 'mode_socks', 'mode_remote', 'mode_local_unix',
+PROBES = ['via_jump_host', 'destination_resolver_rejects', 'duplicate_listen_while_relaying', 'socks_request_never_completed', 'connected_behind_the_grant', 'listener_closed_twice', 'duplicate_listen_request', 'dynamic_listen_ports', 'mode_remote_unix', 'mode_local', 'mode_socks', 'mode_remote', 'mode_local_unix',
           'early_data', 'half_close', 'origin_abort', 'dest_close_first',
           'slow_consumer', 'refused_by_policy', 'ssh_cut',
           'origin_gone_during_open', 'multi_conn', 'listen_refused']
@@ -136,6 +136,9 @@ def gen_plan(rng):
         # while the others are relayed, one more connection is asked for,
         # to a destination whose name or port the resolver call rejects
         # outright (not "unknown": it cannot even be looked up)
+        # the server is a jump host: it relays direct connections over an
+        # SSH connection of its own to the server next to the destinations
+        'jump': mode in ('local', 'socks') and rng.chance(25),
         'bad_dest': {'delay': rng.below(8),
                      'host': rng.choice(['x' * 64 + '.example', 'a..b',
                                          'dest', 'de\0st']),
@@ -368,6 +371,12 @@ class FwdServer(RecServer):
                                                DESTS[i][1]):
                 return False
 
+        upstream = getattr(self.world, 'upstream', None)
+
+        if self.plan.get('jump') and upstream is not None:
+            # tunnelled over the connection to the next hop
+            return upstream
+
         return True
 
     def unix_connection_requested(self, dest_path):
@@ -429,15 +438,17 @@ def run_plan(plan, sched_seed=None, sched_replay=None):
     wire = []
     remote = mode in ('remote', 'remote_unix')
 
-    if plan['cut']:
-        c = plan['cut']
+    def arm_cut():
+        # (the link that is cut is the one between client and server)
+        if plan['cut']:
+            c = plan['cut']
 
-        def on_connection(conn):
-            if not wire:
-                wire.append(CutWire(conn, c['dir'], c['index'], c.get('off', 0),
-                                    c['how']))
+            def on_connection(conn):
+                if not wire:
+                    wire.append(CutWire(conn, c['dir'], c['index'],
+                                        c.get('off', 0), c['how']))
 
-        net.on_connection = on_connection
+            net.on_connection = on_connection
 
     opt = {'none': '', 'permitopen_dest': 'permitopen="dest:80" ',
            'permitopen_other': 'permitopen="other:81" ',
@@ -491,6 +502,24 @@ def run_plan(plan, sched_seed=None, sched_replay=None):
                                              ['10.0.0.5', '10.0.0.6'][i],
                                              DESTS[i][1]) for i in (0, 1)]
 
+        up_acc = None
+
+        if plan.get('jump'):
+            class UpServer(RecServer):
+                def connection_requested(self, dest_host, dest_port,
+                                         orig_host, orig_port):
+                    return True
+
+            up_acc = await asyncssh.listen(
+                '127.0.0.2', 22,
+                server_factory=lambda: UpServer(world, name='upstream'),
+                **server_opts(window=plan['window']))
+            world.upstream = await asyncssh.connect('127.0.0.2', 22,
+                                                    **client_opts())
+            sim.probes['via_jump_host'] += 1
+
+        arm_cut()
+
         try:
             conn = await asyncssh.connect(
                 '127.0.0.1', 22,
@@ -499,6 +528,11 @@ def run_plan(plan, sched_seed=None, sched_replay=None):
             res['connect_error'] = exc
             await world.gate('done')
             acc.close()
+
+            if up_acc is not None:
+                world.upstream.close()
+                up_acc.close()
+
             return
 
         res['conn'] = conn
@@ -731,6 +765,12 @@ def run_plan(plan, sched_seed=None, sched_replay=None):
         await world.gate('done')
         acc.close()
         await acc.wait_closed()
+
+        if up_acc is not None:
+            world.upstream.close()
+            await world.upstream.wait_closed()
+            up_acc.close()
+            await up_acc.wait_closed()
 
         for s in tsrv:
             s.close()
@@ -976,7 +1016,8 @@ def run_plan(plan, sched_seed=None, sched_replay=None):
 
     # -- SSH connection ended: no listener, no relayed transport --------------------
     if not sim.loop.capped:
-        own = {('127.0.0.1', 22), ('10.0.0.5', 80), ('10.0.0.6', 81),
+        own = {('127.0.0.1', 22), ('127.0.0.2', 22), ('10.0.0.5', 80),
+               ('10.0.0.6', 81),
                '/dest0.sock', '/dest1.sock'}
         left = [k for k in net.listeners if k not in own]
         left += ['%s (re-bound, first listener)' % srv._keys[0]
